@@ -96,9 +96,274 @@ fn normalize_cases(rep: &mut Report, rng: &mut Rng, n: u64) {
     }
 }
 
+/// byte-wise semantics of `get_match_len_fast_reject` (what the portable twin computes when it does not panic)
+fn reject_spec(buf: &[u8], rp: usize, md: usize, limit: usize) -> usize {
+    if buf[rp] != buf[rp - md] || buf[rp + 1] != buf[rp + 1 - md] {
+        return 0;
+    }
+    let mut len = 2;
+    while len < limit && buf[rp + len] == buf[rp + len - md] {
+        len += 1;
+    }
+    len
+}
+
+/// `LZEncoderData::get_match_len_fast_reject` (the twin selected by the build's features: in the default build the
+/// clamped u16 reads + the optimized `extend_match`) against `Twins.matchLenFastRejectOptT` / `…Portable`.
+/// Boundary heavy: `read_pos` on the last / last but one byte of the physical buffer (the clamp engages), length limits
+/// 0 / 1 / 2 / exactly up to the physical end / beyond it, buffers of 2..4 bytes.
+fn reject_cases(rep: &mut Report, rng: &mut Rng, n: u64) {
+    let optimized = true; // `vh` links the crate with its default features (`optimization` on)
+    for i in 0..n {
+        let mut r = rng.fork();
+        let size = match i % 5 {
+            0 => r.range(2, 6) as usize,
+            1 => r.range(2, 40) as usize,
+            2 => r.range(2, 300) as usize,
+            3 => 64 + r.range(0, 17) as usize,
+            _ => r.range(2, 2000) as usize,
+        };
+        let period = r.range(1, 24) as usize;
+        let base = r.bytes(period);
+        let mut buf: Vec<u8> = (0..size).map(|k| base[k % period]).collect();
+        for _ in 0..r.below(4) {
+            let p = r.below(size as u64) as usize;
+            buf[p] ^= 1 << r.below(8);
+        }
+        // 1 <= match_dist <= read_pos < size
+        let rp = match r.below(6) {
+            0 => size - 1, // the u16 read at read_pos would leave the buffer: clamped
+            1 | 2 => size.saturating_sub(2).max(1),
+            3 => size.saturating_sub(3).max(1),
+            _ => r.range(1, size as u64 - 1) as usize,
+        };
+        let md = match r.below(4) {
+            0 | 1 => period.min(rp),
+            2 => 1,
+            _ => r.range(1, rp as u64) as usize,
+        };
+        let room = size - rp;
+        let limit = match r.below(8) {
+            0 => 0,
+            1 => 1,
+            2 => 2,
+            3 | 4 => room,
+            5 => room + r.range(1, 300) as usize, // beyond the physical end: only the optimized twin clamps
+            _ => r.range(0, room as u64) as usize,
+        };
+        // verdict of the clamped reads (only to steer clear of `get_unchecked(size + 1..)`, see below)
+        let lim = size - 2;
+        let (c0, c1) = (rp.min(lim), (rp - md).min(lim));
+        let passes = buf[c0..c0 + 2] == buf[c1..c1 + 2];
+        let in_contract = rp + 2 <= size && limit >= 2 && limit <= room;
+        let detail = || json!({"fn": "get_match_len_fast_reject", "buf": hex(&buf), "read_pos": rp, "dist": md - 1, "len_limit": limit});
+        if rp + 2 > size && passes {
+            // `extend_match(buf, read_pos, 2, ..)` would form `get_unchecked(size + 1..size + 1)`: library UB (abort under
+            // debug assertions) although nothing is read. Unreachable from the encoder (it needs avail >= 2).
+            rep.count("twin.reject.skipped-start-past-end");
+            continue;
+        }
+        if !optimized && !(rp + 2 <= size && rp + limit.max(2) <= size) {
+            continue;
+        }
+        let got = match std::panic::catch_unwind(|| hooks::lz_match_len_fast_reject(&buf, rp as i32, md as i32 - 1, limit as i32)) {
+            Ok(v) => v,
+            Err(_) => {
+                rep.fail("twin-fast-reject-panic", "get_match_len_fast_reject panicked inside the optimized twin's domain", detail());
+                continue;
+            }
+        };
+        if in_contract {
+            let want = reject_spec(&buf, rp, md, limit);
+            if got != want {
+                rep.fail("twin-fast-reject-wrong", &format!("get_match_len_fast_reject returned {got}, the byte-wise answer is {want}"), detail());
+            }
+            rep.count("twin.reject.in-contract");
+        } else {
+            rep.count("twin.reject.outside-contract");
+        }
+        if rp + 2 > size {
+            rep.count("twin.reject.clamped");
+        }
+        rep.model(format!("twin.reject buf={} rp={rp} dist={} limit={limit}", hex(&buf), md - 1), format!("ok {got}"));
+        rep.count("twin.reject");
+        rep.case(format!("reject:{}:{}:{}:{}:{}", size.min(70), room.min(4), limit.min(3), (limit > room) as u8, got.min(10)), true, || detail());
+    }
+}
+
+/// The same on a window allocated by `LZEncoder::new` (its `buf_size` and `buf_limit_u16`): the bytes sit at the
+/// physical end of the zeroed buffer.
+fn reject_window_cases(rep: &mut Report, rng: &mut Rng, n: u64) {
+    for _ in 0..n {
+        let mut r = rng.fork();
+        let dict: u32 = *r.pick(&[4096u32, 5000, 65536]);
+        let eb: u32 = *r.pick(&[0u32, 1, 4096]);
+        let ea: u32 = *r.pick(&[0u32, 272, 4096]);
+        let tl = r.range(4, 48) as usize;
+        let period = r.range(1, 6) as usize;
+        let base = r.bytes(period);
+        let mut tail: Vec<u8> = (0..tl).map(|k| base[k % period]).collect();
+        if r.chance(1, 2) {
+            let p = r.below(tl as u64) as usize;
+            tail[p] ^= 1 << r.below(8);
+        }
+        let back = match r.below(4) {
+            0 => 1,
+            1 => 2,
+            _ => r.range(2, tl as u64 - 1) as usize,
+        };
+        let md = if r.chance(1, 2) { period.min(tl - back) } else { r.range(1, (tl - back) as u64) as usize };
+        let limit = match r.below(3) {
+            0 => back,
+            1 => 2,
+            _ => r.range(0, back as u64) as usize,
+        };
+        if back < 2 {
+            // clamped read: only when it rejects (see `reject_cases`)
+            // (also for a clamp that is off by one, so that such a defect is reported by value and not by an abort)
+            let passes = |lim: usize| tail[(tl - 1).min(lim)..][..2] == tail[(tl - back - md).min(lim)..][..2];
+            if passes(tl - 2) || passes(tl - 3) {
+                rep.count("twin.reject.skipped-start-past-end");
+                continue;
+            }
+        }
+        let (size, lim, got) = hooks::lz_window_fast_reject(dict, eb, ea, 273, &tail, back, md as i32 - 1, limit as i32);
+        let detail = || json!({"fn": "get_match_len_fast_reject", "window": "LZEncoder::new", "dict": dict, "extra_before": eb, "extra_after": ea, "buf_size": size, "buf_limit_u16": lim, "tail": hex(&tail), "back": back, "dist": md - 1, "len_limit": limit});
+        if lim + 2 != size {
+            rep.fail("twin-buf-limit-u16", &format!("LZEncoder::new computed buf_limit_u16 = {lim} for buf_size = {size}"), detail());
+        }
+        rep.model(format!("twin.reject zeros={} buf={} rp={} dist={} limit={limit} lim=1", size - tl, hex(&tail), size - back, md - 1), format!("ok {got} {lim}"));
+        rep.count("twin.reject.window");
+        rep.case(format!("reject-window:{dict}:{eb}:{ea}:{}:{}", back.min(3), limit.min(3)), true, || detail());
+    }
+}
+
+/// the loop of the source before its restructuring (kept there as a comment): `count` times normalize once, halve
+fn direct_spec(buf: &[u8], mut pos: usize, mut range: u32, mut code: u32, count: u32) -> (u32, u32, u32, usize) {
+    let mut result = 0u32;
+    for _ in 0..count {
+        if range < 0x0100_0000 {
+            code = (code << 8) | buf.get(pos).copied().unwrap_or(0) as u32;
+            range <<= 8;
+            pos += 1;
+        }
+        range >>= 1;
+        let t = code.wrapping_sub(range) >> 31;
+        code = code.wrapping_sub(range & t.wrapping_sub(1));
+        result = (result << 1) | (1 - t);
+    }
+    (result, range, code, pos)
+}
+
+/// `RangeDecoder::decode_direct_bits` from explicit states: the buffer decoder as the default build dispatches it
+/// (x86-64 assembly when `count > 0 && pos + count <= buf.len()`, else the portable loop) and the portable loop alone
+/// (a reader that is not a buffer), against `Twins.directBitsOpt` / `Twins.directPortable`.  States: counts 0..32 (and
+/// a few beyond), positions such that the buffer ends before / inside / after the run or is already overrun, ranges
+/// at the extremes (1, 2^8, 2^16 ± 1, 2^24 ± 1, 2^31, 2^32 - 1, and 0 for the assembly), codes below / equal to / above
+/// the range as corrupt streams produce them.
+fn direct_cases(rep: &mut Report, rng: &mut Rng, n: u64) {
+    for i in 0..n {
+        let mut r = rng.fork();
+        let len = match i % 6 {
+            0 => r.range(0, 2) as usize,
+            1 => r.range(1, 5) as usize,
+            2 => r.range(3, 12) as usize,
+            _ => r.range(8, 64) as usize,
+        };
+        let mut buf = r.bytes(len);
+        if len > 0 && r.chance(1, 3) {
+            buf[len - 1] = *r.pick(&[0u8, 0xFF, 0x80, 1]);
+        }
+        let count = match r.below(10) {
+            0 => 0,
+            1 => 1,
+            2 => 32,
+            3 => r.range(33, 40) as u32,
+            4 => r.range(26, 31) as u32,
+            _ => r.range(1, 26) as u32,
+        };
+        // position relative to the end of the buffer
+        let pos = match r.below(11) {
+            0 => 0,
+            1 => len,
+            2 => len + r.range(1, 6) as usize,
+            3 | 4 => len.saturating_sub(count as usize),    // guard holds with equality
+            5 => (len + 1).saturating_sub(count as usize),  // guard fails by one
+            6 => len.saturating_sub(1),
+            7 | 8 => r.below((len as u64 + 1).saturating_sub(count as u64).max(1)) as usize, // run inside the buffer
+            _ => r.below(len as u64 + 1) as usize,
+        };
+        let range: u32 = match r.below(16) {
+            0 => 0xFFFF_FFFF,
+            1 => 0x0100_0000,
+            2 => 0x00FF_FFFF,
+            3 => 0x0001_0000,
+            4 => *r.pick(&[0xFFFFu32, 0x100, 0xFF, 1, 0x8000]),
+            5 => 0x8000_0000,
+            6 => 0x7FFF_FFFF,
+            7 => 0,
+            8 | 9 => r.range(0x0001_0000, 0x00FF_FFFF) as u32,
+            10 => r.range(1, 0xFFFF) as u32,
+            _ => r.range(0x0100_0000, 0xFFFF_FFFF) as u32,
+        };
+        let code: u32 = match r.below(8) {
+            0 => range,
+            1 => range.wrapping_sub(1),
+            2 => 0xFFFF_FFFF,
+            3 => 0,
+            4 => r.next() as u32,
+            5 => 0x8000_0000u32.wrapping_add(r.below(3) as u32).wrapping_sub(1),
+            _ => r.below(range.max(1) as u64) as u32,
+        };
+        let guard_holds = count > 0 && pos + count as usize <= len;
+        let detail = || json!({"fn": "decode_direct_bits", "buf": hex(&buf), "pos": pos, "range": range, "code": code, "count": count});
+        let args = format!("buf={} pos={pos} range={range} code={code} count={count}", hex(&buf));
+        let show = |t: (u32, u32, u32, usize)| format!("ok {} {} {} {}", t.0, t.1, t.2, t.3);
+        // with range = 0 the portable loop never terminates (it normalizes until range >= 2^24); the decoder never
+        // holds that state once `prepare` has run
+        let mut call = |portable: bool| match std::panic::catch_unwind(|| hooks::rc_decode_direct_bits(&buf, pos, range, code, count, portable)) {
+            Ok(t) => Some(t),
+            Err(_) => {
+                rep.fail("twin-direct-bits-panic", &format!("decode_direct_bits panicked ({})", if portable { "portable loop" } else { "buffer decoder" }), detail());
+                None
+            }
+        };
+        let portable = if range != 0 { call(true) } else { None };
+        let default = if range != 0 || guard_holds || count == 0 { call(false) } else { None };
+        if let Some(p) = portable {
+            rep.model(format!("twin.direct {args} twin=portable"), show(p));
+            rep.count("twin.direct.portable");
+            if range >= 0x0001_0000 && p != direct_spec(&buf, pos, range, code, count) {
+                rep.fail("twin-direct-bits-portable-wrong", "the portable decode_direct_bits differs from the plain loop (normalize, halve) although range >= 2^16", detail());
+            }
+        }
+        if let Some(d) = default {
+            rep.model(format!("twin.direct {args}"), show(d));
+            rep.count("twin.direct.default");
+            rep.count(if guard_holds { "twin.direct.default.asm-guard-holds" } else { "twin.direct.default.guard-fails" });
+            if let Some(p) = portable {
+                if p != d {
+                    if range >= 0x0001_0000 {
+                        // a difference between the two REAL twins inside the decoder's invariant: a C14 defect
+                        rep.fail("twin-direct-bits-twins-differ", &format!("buffer decoder: {d:?}, portable loop: {p:?} (result, range, code, pos)"), detail());
+                    } else {
+                        rep.count("twin.direct.small-range-twins-differ");
+                    }
+                }
+            }
+        }
+        let rc = if range == 0 { 0 } else if range < 1 << 16 { 1 } else if range < 1 << 24 { 2 } else { 3 };
+        let pc = if pos >= len { 2 } else if pos + count as usize > len { 1 } else { 0 };
+        rep.case(format!("direct:{}:{rc}:{pc}:{}", count.min(33), (code >= range) as u8), count > 0, || detail());
+    }
+}
+
 pub fn run_twins(rep: &mut Report, rng: &mut Rng, thorough: bool) {
     extend_cases(rep, &mut rng.fork(), if thorough { 30_000 } else { 3_000 });
     normalize_cases(rep, &mut rng.fork(), if thorough { 6_000 } else { 600 });
+    reject_cases(rep, &mut rng.fork(), if thorough { 30_000 } else { 3_000 });
+    reject_window_cases(rep, &mut rng.fork(), if thorough { 300 } else { 40 });
+    direct_cases(rep, &mut rng.fork(), if thorough { 30_000 } else { 3_000 });
 }
 
 /// trace string of the match finder as the driver's `mf.trace` builds it
